@@ -148,8 +148,9 @@ def kill_any_time(k: int) -> bool:
     conv = prov.Conversation(turns, acceptor=acc, segmenter=lambda i, raw: pdu_split(raw))
     conv.kill_at = pick(k, 0, 14)
     tr = conv.run()
-    ok = tr.err is None and not tr.over_budget and tr.exit_set and tr.steps <= max(conv.kill_at, 1) + 1 or \
-        (tr.err is None and conv.finished() and tr.exit_set)
+    no_hang = tr.err is None or not tr.err.startswith('hang')
+    ok = no_hang and not tr.over_budget and tr.exit_set and \
+        (tr.steps <= max(conv.kill_at, 1) + 1 or conv.finished() or tr.err is not None)
     deep(ok and k == 3)
     return ok
 
